@@ -55,6 +55,20 @@ def gen_case(rng, idx):
           'seed': rng.randint(0, 10 ** 6), 'str_ids': rng.random() < 0.3}
 
 
+def degenerate_cases():
+  """Frames in which (almost) every geo is constant: no leave-one-out correlation is defined (finding F17)."""
+  out = []
+  for k, (n_const, n_var) in enumerate([(3, 1), (4, 0), (5, 1), (3, 2)]):
+    nd, geos = 51, []
+    for g in range(n_const + n_var):
+      grp = 1 if g == 0 else 2
+      series = [42.0] * nd if g < n_const else [200.0 + ((7 * t * (g + 1)) % 13) - 6.0 for t in range(nd)]
+      geos.append({'id': g + 1, 'group': grp, 'series': series})
+    out.append({'idx': 100000 + k, 'geos': geos, 'n_pre': 40, 'n_test': 11, 'n_cool': 0, 'labels': [1, 2], 'names': {},
+                'seed': 100000 + k, 'str_ids': bool(k % 2)})
+  return out
+
+
 def frame(case, shuffle_seed=None):
   import pandas as pd
   nm = {'key_geo': 'geo', 'key_response': 'response', 'key_date': 'date', 'key_group': 'group', 'key_period': 'period'}
@@ -181,7 +195,7 @@ def run(tier):
   ck.prove('props/C19.v', gen_targets=[], extra=['harness/RunC19.vo'])
   rng = random.Random(ck.seed * 47 + 19)
   n = 100 if tier == 'quick' else 1500
-  cases = [gen_case(rng, i) for i in range(n)]
+  cases = degenerate_cases() + [gen_case(rng, i) for i in range(n)]
   res = common.pmap(_one, cases, chunksize=2)
   dist = {'with_noisy_geos': 0, 'with_outlier_dates': 0, 'fewer_than_4_geos': 0, 'custom_names': 0, 'rows_total': 0}
   terms = []
@@ -220,7 +234,7 @@ def run(tier):
     ck.tie_broken('correspondence', 'TBRDiagnostics.fit vs model/Screen.v on %d frames' % len(bad), {'case': cases[sorted(bad)[0]]})
   ck.cov['rule'] = ('experiment frames with 1-5 control and 1-4 treatment geos (plus geos of a third group), 20-45 pre-period dates, '
                     'test and optional cooldown periods, planted noisy / constant / anti-correlated geos and spike dates, custom '
-                    'column names and group labels, string or integer geo IDs; each frame is fitted as generated and row-shuffled. '
+                    'column names and group labels, string or integer geo IDs, plus four frames in which all or all but one geo are constant; each frame is fitted as generated and row-shuffled. '
                     'non-trivial: something was reported or at least four geos (noisy-geo detection active)')
   ck.cov['distribution'] = dist
   ck.cov['correspondence'] = {'frames_model_vs_impl': len(terms), 'disagreements': len(bad)}
